@@ -11,7 +11,9 @@ EXPLANATION = (
     "R13.1b ShortFlags::new builds the CharIndices from the valid prefix of the same `inner` it stores. "
     "R13.2 encapsulation witnesses (compile_fail doctests in /verif/witness, thorough tier). R13.3 sibling literals: "
     "is_long/to_long test `--`, is_short/to_short `-` then `--`, is_escape `--`, is_stdio `-`; to_long splits at the first "
-    "`=` (split_once -> find, never rfind). R13.4 PANIC over every clap_lex body. R13.5 next_value_os exhausts the iterator on every returning path. R13.6 the non-UTF-8 fallback of to_long/to_value returns the very string whose conversion failed. NOT decided: byte-for-byte "
+    "`=` (split_once -> find, never rfind). R13.4 PANIC over every clap_lex body. R13.5 next_value_os exhausts the iterator on every returning path. R13.6 the non-UTF-8 fallback of to_long/to_value returns the very string whose conversion failed. R13.7 the two negative-number classifiers agree: ParsedArg::is_negative_number = is_number(text after exactly one leading `-`) on "
+    "valid UTF-8 only, ShortFlags::is_negative_number = is_number(remaining valid prefix) only when there is no invalid suffix. R13.8 cluster walk: ShortFlags::next_flag yields the next char of the valid prefix first, then the invalid suffix exactly once "
+    "(cleared in the same block), then None; is_empty is `no invalid suffix && prefix exhausted`; Iterator::next delegates to next_flag. NOT decided: byte-for-byte "
     "re-assembly for all inputs, the language of is_number."
 )
 TRUSTED = ["rustc MIR", "clapfacts", "lib/panics.py", "audit/panic.tsv", "std: char_indices/valid_up_to/str::find return char boundaries"]
@@ -127,6 +129,45 @@ def run(ctx):
                   "next_value_os returns the remaining value on a path that leaves invalid_suffix queued: a later call yields the non-UTF-8 tail again")
     wpre = writes_field(nv, "utf8_prefix")
     res.check(len(wpre) >= 1, "R13.5", "prefix-reset", nv.where(), "utf8_prefix reset on the valid-prefix path", "next_value_os no longer resets utf8_prefix")
+    # ---- R13.7 sibling negative-number classifiers
+    pn = fx.body("clap_lex::ParsedArg::is_negative_number")
+    sn = fx.body("clap_lex::ShortFlags::is_negative_number")
+    pc = [(t, c) for t in tree(pn) for c in t.calls_to(r"^clap_lex::is_number$")]
+    sc_ = [(t, c) for t in tree(sn) for c in t.calls_to(r"^clap_lex::is_number$")]
+    if not pc or not sc_:
+        res.violation("R13.7", "siblings-use-is_number", (pn if not pc else sn).where(), "a negative-number classifier no longer decides through is_number: ParsedArg and ShortFlags would disagree on what a number is")
+    for t, c in pc:
+        e = expr(t, c.args[0])
+        res.check(re.fullmatch(r"branch\(strip_prefix\(s,(45|'-')\)\)#Continue\.0", e) is not None and bool(pn.calls_to(r"ParsedArg::to_value$")), "R13.7", "parsed-arg", c.where(),
+                  "is_number(to_value()?.strip_prefix('-')?)", "ParsedArg::is_negative_number tests is_number(%s)" % e[:80])
+    for t, c in sc_:
+        e = expr(t, c.args[0])
+        res.check(e == "as_str(self.utf8_prefix)" and has_bool(t, c.bb, "T", r"^is_none\(self\.invalid_suffix\)$"), "R13.7", "short-flags", c.where(),
+                  "invalid_suffix.is_none() && is_number(utf8_prefix.as_str())", "ShortFlags::is_negative_number tests is_number(%s) under %s" % (e[:60], guard_strs(t, c.bb)))
+    # ---- R13.8 next_flag / is_empty
+    nf = fx.body("clap_lex::ShortFlags::next_flag")
+    rets = [(i, s_) for i, j, s_ in nf.stmts() if s_["k"] == "assign" and s_["place"] == 0 and s_["rv"]["k"] == "agg"]
+    res.floor("R13.8", "return constructions in next_flag", len(rets), 3)
+    wsuf = [i for i, s_ in writes_field(nf, "invalid_suffix")]
+    for i, s_ in rets:
+        v = s_["rv"].get("variant")
+        ops = [expr(nf, o) for o in s_["rv"].get("ops", [])]
+        gl = guard_strs(nf, i)
+        if v == "Some" and ops and ops[0].startswith("Result::Ok("):
+            res.check(ops[0] == "Result::Ok(next(self.utf8_prefix)#Some.0.1)" and "V1:next(self.utf8_prefix)" in gl, "R13.8", "flag-from-prefix", "%s bb%d" % (nf.where(), i),
+                      "Some(Ok(next char of the valid prefix))", "next_flag returns %s under %s" % (ops[0][:60], gl))
+        elif v == "Some":
+            res.check(ops and ops[0] == "Result::Err(self.invalid_suffix#Some.0)" and "!V1:next(self.utf8_prefix)" in gl and i in wsuf, "R13.8", "suffix-once-after-prefix", "%s bb%d" % (nf.where(), i),
+                      "Some(Err(invalid suffix)) only after the prefix is exhausted; the suffix is cleared", "next_flag returns the invalid suffix before the prefix is exhausted or without clearing it (guards %s, cleared=%s)" % (gl, i in wsuf))
+        elif v == "None":
+            res.check("!V1:next(self.utf8_prefix)" in gl and "!V1:self.invalid_suffix" in gl, "R13.8", "none-when-exhausted", "%s bb%d" % (nf.where(), i),
+                      "None only when prefix and suffix are exhausted", "next_flag returns None under %s" % gl)
+    ie = fx.body("clap_lex::ShortFlags::is_empty")
+    emp = ie.calls_to(r"^str::is_empty$")
+    res.check(len(emp) == 1 and expr(ie, emp[0].args[0]) == "as_str(self.utf8_prefix)" and has_bool(ie, emp[0].bb, "T", r"^is_none\(self\.invalid_suffix\)$"), "R13.8", "is_empty", ie.where(),
+              "invalid_suffix.is_none() && utf8_prefix.as_str().is_empty()", "ShortFlags::is_empty no longer means `no suffix and prefix exhausted`")
+    itn = fx.body("<clap_lex::ShortFlags as std::iter::traits::iterator::Iterator>::next")
+    res.check(len(itn.calls_to(r"ShortFlags::next_flag$")) == 1 and len(itn.calls()) == 1, "R13.8", "iterator-delegates", itn.where(), "Iterator::next = next_flag", "Iterator::next for ShortFlags no longer delegates to next_flag")
     # ---- R13.6 `x.to_str().ok_or(x)`: the Err payload is the very string whose conversion failed
     for fn_ in ("to_long", "to_value"):
         b = fx.body("clap_lex::ParsedArg::" + fn_)
